@@ -1,11 +1,15 @@
 """C25: EtherCat.find_free_address / assigned_address / scan_serial_numbers under
 concurrent initialisation, on the simulated bus, against Ecat/Addr.v"""
 import asyncio
+import logging
 import random
 import struct
 
 from .common import Check, Err, clist, cnat, cz, czlist
 from .sim_bus import SimBus, SimTerminal, attach
+
+
+logging.disable(logging.CRITICAL)      # injected bus faults make the master log tracebacks
 
 
 class C25(Check):
@@ -43,7 +47,12 @@ class C25(Check):
             mode = rng.choice(["gather", "gather", "scan", "reserve"])
             if mode == "reserve":
                 hi += 2          # room for the addresses reserved ahead of time
-            out.append({"pre": pre, "range": (lo, hi), "seed": rng.randrange(1 << 30), "mode": mode})
+            case = {"pre": pre, "range": (lo, hi), "seed": rng.randrange(1 << 30), "mode": mode}
+            if mode == "gather" and rng.random() < 0.3:
+                # a bus fault: the k-th response frame comes back cut short.  The requests in it may fail, but no address may be
+                # handed out on the strength of a damaged answer
+                case["damage"] = rng.choice([rng.randint(1, 3 * n + 2), "probe", "probe"])
+            out.append(case)
         return out
 
     def run_impl(self, case):
@@ -65,6 +74,7 @@ class C25(Check):
             sims = [SimTerminal(station=a, eeprom=bytes(28) + struct.pack("<I", 100 + i) + bytes(200)) for i, a in enumerate(case["pre"])]
             bus = SimBus(sims)
             tr = attach(ec, bus)
+            nframes = [0, 0]
             real_sendto = tr.sendto
 
             def delayed_sendto(frame, addr=None):
@@ -72,6 +82,20 @@ class C25(Check):
                 frame = bytes(frame)
                 tr.sent.append(frame)
                 resp = bus.process(frame)
+                nframes[0] += 1
+                hit = False
+                if case.get("damage") == "probe":
+                    # the frame that carries a probe of an address at which a terminal DOES answer
+                    try:
+                        from .c11 import parse_frame
+                        stations = {x.station for x in sims if x.station}
+                        hit = nframes[0] > 0 and not nframes[1] and any(d["cmd"] == 4 and (d["addr"] >> 16) == 0x10 and (d["addr"] & 0xffff) in stations
+                                                                       for d in parse_frame(frame)[1][1:])
+                    except Exception:      # noqa
+                        hit = False
+                if nframes[0] == case.get("damage") or hit:
+                    nframes[1] = 1
+                    resp = resp[:max(16, len(resp) // 2)]
                 asyncio.get_event_loop().call_later(rng.choice([0, 0, 0.0003, 0.0008]), ec.datagram_received, resp, addr)
             tr.sendto = delayed_sendto
             real_rt = ec.roundtrip
@@ -96,8 +120,8 @@ class C25(Check):
                     tasks = [asyncio.ensure_future(ec.assigned_address(-i)) for i in range(n)]
                     for i, t in enumerate(tasks):
                         t.set_name(f"T{i}")
-                    res = await asyncio.wait_for(asyncio.gather(*tasks), 120)
-                    res = list(res)
+                    res = await asyncio.wait_for(asyncio.gather(*tasks, return_exceptions=bool(case.get("damage"))), 120)
+                    res = [None if isinstance(r, BaseException) else r for r in res]      # a request in the damaged frame failed: no address
                 elif case["mode"] == "reserve":
                     # addresses are reserved ahead of time (an address once returned "will never be handed out again"),
                     # a scan assigns the unaddressed terminals, then the rest of the range is reserved
@@ -125,7 +149,7 @@ class C25(Check):
     # --- correspondence: only for the 'gather' mode, where every event is attributable to a task
     def model_term(self, case):
         o = case["_o"]
-        if isinstance(o, Err) or case["mode"] != "gather":
+        if isinstance(o, Err) or case["mode"] != "gather" or case.get("damage"):
             return "(VZ 0)"
         evs = []
         for e in o["events"]:
@@ -140,7 +164,7 @@ class C25(Check):
         return f"(run {cz(lo)} {cz(hi)} {czlist(case['pre'])} {clist(evs)})"
 
     def model_value(self, case, o):
-        if isinstance(o, Err) or case["mode"] != "gather":
+        if isinstance(o, Err) or case["mode"] != "gather" or case.get("damage"):
             return 0
         tasks = [[0, a] if a else [4, r] for a, r in zip(case["pre"], o["res"])]
         # used_addresses in insertion order is not observable from the set: compare as the model's order
@@ -160,7 +184,11 @@ class C25(Check):
         pre = case["pre"]
         res = o["res"]
         given = [r for a, r in zip(pre, res) if not a] + list(res[len(pre):])      # the latter: addresses reserved with find_free_address
+        if case.get("damage"):
+            given = [r for r in given if r is not None]        # requests that failed with the damaged frame got no address
         for a, r in zip(pre, res):
+            if case.get("damage") and r is None:
+                continue
             if a and r != a:
                 return f"terminal that answered with {a} was reported at {r}"
         for r in given:
@@ -170,7 +198,8 @@ class C25(Check):
                 return f"assigned address {r} equals an address at which a terminal already answered"
         if len(set(given)) != len(given):
             return f"an address was handed out twice: {sorted(given)}"
-        if len(set(o["bus"])) != len(o["bus"]):
+        stations = [x for x in o["bus"] if x != 0] if case.get("damage") else o["bus"]      # after a fault terminals may stay unaddressed
+        if len(set(stations)) != len(stations):
             return f"two terminals share a station address: {o['bus']}"
         # each probe answer must reflect the bus
         return True
@@ -184,7 +213,7 @@ class C25(Check):
 
     def rule(self):
         return ("buses of 1-8 terminals, each unaddressed or pre-assigned (inside or outside the range), address range only 0-3 larger than the terminal count so that "
-                "draws collide, concurrent assigned_address tasks (or scan_serial_numbers), scripted randint and random response delays; non-trivial = at least two unaddressed terminals")
+                "draws collide, concurrent assigned_address tasks (or scan_serial_numbers), scripted randint and random response delays; 30% of the concurrent cases with one response frame cut short (requests in it may fail, addresses handed out are still checked); non-trivial = at least two unaddressed terminals")
 
     def distribution(self, cases, observed):
         d = {"draws": 0, "collisions": 0, "probes_answered": 0, "scan_mode": 0}
@@ -203,10 +232,10 @@ class C25(Check):
         return d
 
     def describe(self, case):
-        return {"pre": case["pre"], "range": list(case["range"]), "seed": case["seed"], "mode": case["mode"]}
+        return {"pre": case["pre"], "range": list(case["range"]), "seed": case["seed"], "mode": case["mode"], **({"damage": case["damage"]} if case.get("damage") else {})}
 
     def case_from_json(self, w):
-        return {"pre": w["pre"], "range": tuple(w["range"]), "seed": w["seed"], "mode": w["mode"]}
+        return {"pre": w["pre"], "range": tuple(w["range"]), "seed": w["seed"], "mode": w["mode"], **({"damage": w["damage"]} if w.get("damage") else {})}
 
 
 _orig = C25.run_impl
